@@ -20,6 +20,8 @@ CONSTANTS Buf,        \* line-buffer-size
                       \*  "D1"  handle_pending_line_with_diff_name emits the output buffer before it
                       \*        writes a header directly to the writer
                       \*  "D14" ... and records the header as handled in its mode-change branch too
+                      \*  "D2"  entering a merge-conflict region first paints the buffered -/+ lines
+                      \*        (and emits a hunk header that is still pending)
                       \* Fixes = {} is the tree as pinned; the regression configs drop one fix and
                       \* must produce a counterexample (the design-level check is not vacuous).
 FixEmit == "D1" \in Fixes
@@ -29,7 +31,9 @@ Row(t, k, d) == [t |-> t, k |-> k, d |-> d]
 
 InitS == [st |-> "Unknown", mf |-> NoFile, pf |-> NoFile, mev |-> "none", pev |-> "none",
           dlf |-> NoFile, mode |-> 0, cur |-> <<>>, handled |-> <<>>,
-          mb |-> <<>>, pb |-> <<>>, ob |-> <<>>, w |-> <<>>, hh |-> 0, seck |-> 0, bin |-> FALSE]
+          mb |-> <<>>, pb |-> <<>>, ob |-> <<>>, w |-> <<>>, hh |-> 0, seck |-> 0, bin |-> FALSE,
+          comb |-> FALSE,                       \* DiffType::Combined
+          mcp |-> "", mo |-> <<>>, ma |-> <<>>, mt |-> <<>>]   \* merge conflict phase and buffered lines
 
 HunkStates == {"HunkHeader", "HunkZero", "HunkMinus", "HunkPlus"}
 
@@ -74,7 +78,7 @@ FallThrough(s, k) ==
 \* handle_commit_meta_header_line (commit-style not raw)
 HCommit(s, k) ==
   LET s1 == Pending(Flush(s))
-      s2 == Emit([s1 EXCEPT !.st = "CommitMeta", !.hh = 0])
+      s2 == Emit([s1 EXCEPT !.st = "CommitMeta", !.hh = 0, !.mcp = ""])
   IN Direct(s2, Row("commit", k, <<>>))
 
 \* handle_diff_header_diff_line
@@ -82,7 +86,7 @@ HDiff(s, k, line) ==
   LET s1 == Pending([Flush(s) EXCEPT !.st = "DiffHeader", !.hh = 0])
       name == IF line.f = line.g THEN line.f ELSE NoFile
   IN [s1 EXCEPT !.handled = <<>>, !.dlf = name, !.mf = name, !.pf = name, !.mev = "change", !.pev = "change",
-                !.cur = <<name, name>>, !.seck = k, !.bin = FALSE]
+                !.cur = <<name, name>>, !.seck = k, !.bin = FALSE, !.comb = (line.kd = "cc"), !.mcp = ""]
 
 \* handle_diff_header_file_operation_line: claims the line iff a header is still owed
 HFileOp(s, k, line) ==
@@ -136,6 +140,32 @@ HHunkLine(s, k, line) ==
                    LET a == Flush(s1) IN [a EXCEPT !.ob = Append(@, Row("raw", k, <<>>)), !.st = "HunkZero"]
   IN Emit(s2)
 
+\* handle_merge_conflict_line (combined diffs only; comes before handle_hunk_line in the chain)
+\* paint_buffered_merge_conflict_lines: two comparisons against the common ancestor
+PaintConflict(s, k) ==
+  LET a == Emit(s)
+      b == Direct(Direct(a, Row("bar", k, <<>>)), Row("mergeHdr", k, <<>>))
+      c == Emit([Emit(b) EXCEPT !.ob = @ \o [i \in 1..Len(s.ma) |-> Row("minus", s.ma[i], <<>>)]
+                                       \o [i \in 1..Len(s.mo) |-> Row("plus", s.mo[i], <<>>)]])
+      d == Direct(c, Row("mergeHdr", k, <<>>))
+      e == Emit([Emit(d) EXCEPT !.ob = @ \o [i \in 1..Len(s.ma) |-> Row("minus", s.ma[i], <<>>)]
+                                       \o [i \in 1..Len(s.mt) |-> Row("plus", s.mt[i], <<>>)]])
+  IN [Direct(e, Row("bar", k, <<>>)) EXCEPT !.mo = <<>>, !.ma = <<>>, !.mt = <<>>, !.mcp = "", !.st = "HunkZero"]
+HConflict(s, k, line) ==
+  LET c == line.c IN
+  IF s.mcp = "" THEN       \* enter_merge_conflict
+       LET s0 == IF "D2" \in Fixes THEN Flush(EmitHH(s)) ELSE s
+       IN [s0 EXCEPT !.st = "MergeConflict", !.mcp = "ours", !.hh = 0]
+  ELSE IF c = "m_anc" /\ s.mcp = "ours" THEN [s EXCEPT !.mcp = "anc"]
+  ELSE IF c = "m_theirs" /\ s.mcp \in {"ours", "anc"} THEN [s EXCEPT !.mcp = "theirs"]
+  ELSE IF c = "m_end" THEN PaintConflict(s, k)
+  ELSE CASE s.mcp = "ours" -> [s EXCEPT !.mo = Append(@, k)]       \* store_line
+         [] s.mcp = "anc" -> [s EXCEPT !.ma = Append(@, k)]
+         [] OTHER -> [s EXCEPT !.mt = Append(@, k)]
+ClaimsConflict(s, line) ==
+  \/ s.st \in HunkStates /\ s.comb /\ line.c = "m_ours"
+  \/ s.st = "MergeConflict"
+
 \* The handler chain.  Guards are those of the test_* functions for git input.
 Step(s, k, line) ==
   LET c == line.c hdr == (s.st = "DiffHeader") IN
@@ -144,9 +174,10 @@ Step(s, k, line) ==
     [] c \in {"newfile", "delfile"} /\ hdr -> HFileOp(s, k, line)
     [] c \in {"mmm", "renfrom", "copyfrom"} /\ hdr -> HMinusHdr(s, k, line)
     [] c \in {"ppp", "rento", "copyto"} /\ hdr -> HPlusHdr(s, k, line)
-    [] c = "hh" -> HHunkHeader(s, k)
+    [] c = "hh" /\ s.st # "MergeConflict" -> HHunkHeader(s, k)
     [] c \in {"oldmode", "newmode"} -> HMode(s, k, line)
     [] c = "binary" -> HBinary(s, k, line)
+    [] ClaimsConflict(s, line) -> HConflict(s, k, line)
     [] s.st \in HunkStates -> HHunkLine(s, k, line)
     [] OTHER -> FallThrough(s, k)
 
